@@ -24,8 +24,8 @@ theorem arraySplit_unfold (a : Arr α) (zero : α) (parts ax : Nat) (hp : parts 
 
 theorem isEmpty_false_of (a : Arr α) (hwf : a.WF) (hnz : 0 ∉ a.shape) : a.isEmpty = false := by
   have := prod_pos_of_not_mem _ hnz
-  simp only [Arr.isEmpty, hwf.symm ▸ rfl]
-  rw [hwf]; simp; omega
+  unfold Arr.isEmpty
+  rw [show a.elems.length = a.shape.prod from hwf]; simp; omega
 
 /-- one block of the rolled array, reshaped and moved back -/
 theorem splitPiece_spec (arr : Arr α) (zero : α) (n off sec : Nat) (P Q : List Nat) (hwf : arr.WF)
@@ -72,15 +72,16 @@ theorem splitPiece_spec (arr : Arr α) (zero : α) (n off sec : Nat) (P Q : List
     refine ⟨t, ?_, ?_, htwf, ?_⟩
     · simp only [splitPiece, h1, if_true, hsec]
       congr 1
-      simp only [Arr.flat, hMl, t, hP, hQ, hst1, Nat.mul_one]
+      rw [hst1, Nat.mul_one, Nat.mul_one] at hMl
+      simp only [Arr.flat, t, hP, hQ, hst1, Nat.mul_one, hMl]
       rfl
     · simp [t, hP, hQ]
     · intro p q j hp hq hj
-      have hp0 : p = [] := by subst hP; exact List.eq_nil_of_length_eq_zero (inRange_length _ _ hp)
+      have hp0 : p = [] := List.eq_nil_of_length_eq_zero (by have := inRange_length _ _ hp; rw [hP] at this; simpa using this)
       have := htget p q j hp hq hj
       rw [hp0] at this ⊢
       exact this
-  · have hnd : t.ndim = P.length + Q.length + 1 := by simp [t, Arr.ndim]; omega
+  · have hnd : t.ndim = P.length + Q.length + 1 := by simp [t, Arr.ndim]
     obtain ⟨r, h2, h3, h4, h5⟩ := frontTo_spec t zero sec P Q htwf rfl
     refine ⟨r, ?_, h3, h4, ?_⟩
     · simp only [splitPiece, h1, if_false, hsec]
